@@ -413,9 +413,11 @@ def validate_py_oracle(rep, scs):
             for i in range(sc["nx"]):
                 x = (2 * i - sc["nx"] + 1) * sc["s"]
                 y = (2 * j - sc["ny"] + 1) * sc["sy"]
-                pt = [sc["origin"][d] + (x * b["u"][d] + y * b["v"][d]) / den for d in range(3)]
+                kz = (j + i) % sc["nz"] if sc.get("nz") else 0          # thick scenarios: one depth per pixel
+                z = (2 * kz - sc["nz"] + 1) * sc["sz"] if sc.get("nz") else 0
+                pt = [sc["origin"][d] + (x * b["u"][d] + y * b["v"][d] + z * b["n"][d]) / den for d in range(3)]
                 loc = locate_py(sc["m"]["cells"], nd, pt, 1e-9)
-                cand = sc["table"][0][j][i]
+                cand = sc["table"][kz][j][i]
                 want = cand[0] if cand[0] != -2 else "face"
                 got = "face" if isinstance(loc, tuple) else loc
                 n += 1
@@ -544,6 +546,87 @@ def run_c03(rep, tier, seed):
     rep.assumptions += ["real numba schedules are sampled via thread counts; pixels whose sample point lies on a cell face accept any touching cell", "coordinates are dyadic, so float arithmetic of the sample points is exact for the lattice scenarios"]
 
 
+def check_thick_omitted(rep, sc, rng, idx, threads):
+    """dz given, dx omitted (whole horizontal range): the depth samples still cover [-dz/2, dz/2]; point location by the
+    Python oracle (validated against TLC's tables) on the pixel coordinates the call reports"""
+    import numba
+    import numpy as np
+    import osyris
+    from osyris.plot.direction import get_direction
+    if sc["m"]["nd"] != 3:
+        return
+    lbox = 1.0
+    f = lbox / 32.0
+    dg, vec = build_group(sc, lbox)
+    normals = [(0, 0, 1), (1, 1, 1), (0, 1, 1), (1, -2, 3)]
+    nrm = normals[idx % len(normals)]
+    nx = [3, 4, 6][idx % 3]
+    nz = [3, 4, 7][(idx // 3) % 3]
+    dz = [0.09, 0.21, 0.33, 0.6][(idx // 9) % 4] * lbox
+    op = OPS[idx % len(OPS)]
+    origin = [sc["origin"][d] * f for d in range(3)]
+    kw = {"origin": osyris.Vector(*origin, unit="cm"), "resolution": {"x": nx, "y": nx, "z": nz}, "direction": osyris.Vector(*nrm),
+          "dz": dz * osyris.units("cm"), "operation": op}
+    numba.set_num_threads(threads[idx % len(threads)])
+    rep.case(klass=("thick-omitted-window", idx % 211, nrm, nx, nz, dz, op))
+    what = f"normal {nrm} origin {origin} dz={dz} cm, dx omitted, resolution {nx}x{nx}x{nz}, operation {op}"
+    try:
+        p = call_map(dg, [dg.layer("density")], kw)
+        with contextlib.redirect_stdout(io.StringIO()):
+            basis = get_direction(direction=osyris.Vector(*nrm))
+    except RuntimeError as e:
+        if "No cells were selected" in str(e):
+            rep.validated()
+            return
+        rep.mismatch({"module": "MapMachine", "field": "raises", "kind": "thick-omitted"}, f"{what}: {e}", case={"sc": sc, "idx": idx}, module="maps")
+        return
+    except Exception as e:
+        rep.mismatch({"module": "MapMachine", "field": "raises", "kind": "thick-omitted"}, f"{what}: map raised {type(e).__name__}: {e}", case={"sc": sc, "idx": idx}, module="maps")
+        return
+    bu, bv, bn = [np.array([float(b.x.values), float(b.y.values), float(b.z.values)]) for b in (basis.u, basis.v, basis.n)]
+    cells = [{"c": [c["c"][d] * f for d in range(3)], "h": c["h"] * f} for c in sc["m"]["cells"]]
+    lay = p.layers[0]
+    data = lay["data"]
+    summing = op in ("sum", "nansum")
+    try:
+        fac = float((1.0 * lay["unit"]).to("g/cm**2" if summing else "g/cm**3").magnitude)
+    except Exception:
+        rep.mismatch({"module": "MapMachine", "field": "unit", "kind": "thick-omitted"}, f"{what}: unit {lay['unit']} is not the layer unit{' times a length' if summing else ''}", case={"sc": sc, "idx": idx}, module="maps")
+        return
+    step = dz / nz
+    zs = [-dz / 2 + (k + 0.5) * step for k in range(nz)]
+    for j, y in enumerate(np.asarray(p.y)):
+        for i, x in enumerate(np.asarray(p.x)):
+            col, amb = [], False
+            for z in zs:
+                loc = locate_py(cells, 3, np.array(origin) + x * bu + y * bv + z * bn, 1e-9 * lbox)
+                if isinstance(loc, tuple):
+                    amb = True
+                    break
+                col.append(np.nan if loc == -1 else 1.5 * loc)
+            if amb:
+                continue
+            with np.errstate(all="ignore"):
+                import warnings
+                with warnings.catch_warnings():
+                    warnings.simplefilter("ignore")
+                    want = float(getattr(np, op)(np.array(col)))
+            if summing:
+                want *= step
+            m = bool(np.ma.getmaskarray(data)[j, i])
+            got = float(np.ma.getdata(data)[j, i]) * fac
+            if np.isnan(want):
+                ok = m or np.isnan(got)
+            else:
+                ok = (not m) and abs(got - want) <= 1e-9 * abs(want)
+            if not ok:
+                rep.mismatch({"module": "MapMachine", "field": "pixel", "kind": "thick-omitted"},
+                             f"{what}: pixel ({i},{j}) {'is masked' if m else 'shows ' + repr(got)}, the column sampled at depths {[round(z, 4) for z in zs]} is {col} -> {want!r}",
+                             case={"sc": sc, "idx": idx}, module="maps")
+                return
+    rep.validated()
+
+
 def run_c11(rep, tier, seed):
     import numba
     import osyris  # noqa
@@ -553,6 +636,9 @@ def run_c11(rep, tier, seed):
     threads = sorted({min(t, maxt) for t in [1, 3, 16]})
     for idx, sc in enumerate(scs):
         check_thick(rep, sc, threads, rng, idx, tier)
+    validate_py_oracle(rep, scs[:: (40 if tier == "quick" else 8)])
+    for idx, sc in enumerate(scs[:: (3 if tier == "quick" else 1)]):
+        check_thick_omitted(rep, sc, rng, idx, threads)
     numba.set_num_threads(maxt)
     rep.sample({"scenario": {k: scs[0][k] for k in ("basis", "origin", "nx", "ny", "nz", "s", "sz")}, "containing_cell_per_sample": scs[0]["table"]}, limit=2)
     rep.part("replay", scenarios=len(scs), operations=OPS)
